@@ -263,4 +263,23 @@ theorem reachable_induction {P : Params} {Inv : State → Prop} (h0 : Inv init)
     | none => simp [hs] at hr
     | some s' => rw [hs] at hr; exact ih s' (hstep s0 e s' h hs) s1 hr
 
+/-! ### the dial options of one connection -/
+
+/-- fact: `dialGRPCConn` builds its option list in a slice of its own (`make`/literal) and only ever appends the
+caller's `dialOpts...` INTO it — it never appends onto, or writes into, the caller's slice -/
+structure DialParams where
+  optsFresh : Bool
+  deriving DecidableEq, Repr
+
+def DialParams.Good (D : DialParams) : Prop := D.optsFresh = true
+
+instance (D : DialParams) : Decidable D.Good := by unfold DialParams.Good; exact inferInstance
+
+/-- Which id's listener the connection returned by `DialWithOptions(id, common...)` is dialled to, when a concurrent
+`DialWithOptions(other, common...)` shares the caller's option slice `common` (which has spare capacity) and
+`otherWroteLast` says whose per-id dialer was written last into the shared backing array.  With a slice of its own
+each dial keeps its own dialer. -/
+def dialReaches (D : DialParams) (id other : Nat) (otherWroteLast : Bool) : Nat :=
+  if D.optsFresh then id else if otherWroteLast then other else id
+
 end GoPlugin.GrpcBroker
